@@ -47,6 +47,42 @@ CORPUS = [
     'background:#000008">inner</span></span>',
 ]
 
+# Documents given whole (own <style>): canvas propagation (CSS 2.1 14.2) and transforms on every
+# transformable class; run first with the corpus.
+PAGE = '<style>@page{size:300px 400px;margin:10px}'
+DOC_CORPUS = [
+    PAGE + 'body{margin:5px;background:#000008;color:#000009;font-size:10px}</style><p>body to canvas</p>',
+    PAGE + 'html{background:#000004}body{margin:5px;background:#000008;color:#000009}</style><p>both</p>',
+    PAGE + 'body{margin:5px;background:rgba(0,0,8,0.5);border-radius:4px;color:#000009}</style><p>translucent</p>',
+    PAGE + 'html{visibility:hidden;background:#000004}body{visibility:visible;background:#000008;color:#000009}'
+    '</style><p>hidden root</p>',
+    PAGE + 'body{position:absolute;background:#000008;color:#000009}</style><p>abs body</p>',
+    PAGE + 'body{background:#000008;opacity:0.5;color:#000009}</style><p style="background:#00000c">opacity body</p>',
+    PAGE + 'body{margin:0;font-size:10px}</style><p>no background at all</p>',
+    PAGE + 'body{margin:0;font-size:10px;line-height:12px}</style>'
+    '<table style="border-collapse:separate"><tr><td style="transform:translate(1001px,0);background:#000004;'
+    'color:#000005">cell</td><td style="background:#000008;color:#000009">b</td></tr></table>'
+    '<div style="display:inline-flex;transform:translate(1002px,0);background:#00000c;color:#00000d">flex</div>'
+    '<div style="display:inline-grid;transform:translate(1003px,0);background:#000010;color:#000011">grid</div>'
+    '<span style="transform:translate(1004px,0);background:#000014;color:#000015">inline: not transformable</span>',
+    PAGE + 'body{margin:0;font-size:10px;line-height:12px}</style>'
+    '<table style="border-collapse:separate"><caption style="transform:translate(1001px,0);background:#000004;'
+    'color:#000005">cap</caption><tr><td style="transform:scale(0);background:#000008;color:#000009">gone</td>'
+    '<td style="background:#00000c;color:#00000d">b</td></tr></table>'
+    '<img src="data:image/svg+xml,%3Csvg xmlns=\'http://www.w3.org/2000/svg\' width=\'10\' height=\'8\'%3E%3C/svg%3E" '
+    'style="transform:translate(1002px,0);background:#000010">',
+]
+
+# Backgrounds with images (gradients): their painting is not modelled; compared after layout only.
+LAYOUT_CORPUS = [
+    PAGE + 'html{background:linear-gradient(#000004,#000008)}body{background:#00000c;color:#00000d}</style><p>g</p>',
+    PAGE + 'body{background:linear-gradient(#000004,#000008);color:#00000d}</style><p>g</p>',
+    PAGE + 'html{background:none}body{background-image:none,linear-gradient(#000004,#000008)}</style>'
+    '<p style="background-image:none,linear-gradient(#000004,#000008);visibility:hidden">g</p>',
+    PAGE + '@page{background:linear-gradient(#000004,#000008)}html{background:none}body{color:#00000d}</style>'
+    '<p style="background-image:none;background-color:rgba(0,0,0,0)">g</p>',
+]
+
 OPACITIES = [Fraction(1), Fraction(1), Fraction(1), Fraction(1, 2), Fraction(0), Fraction(3, 2), Fraction(-1),
              1 - Fraction(1, 2 ** 40), Fraction(1, 3)]
 ZS = ['auto', 'auto', 'auto', 0, 0, -1, 1, 2, -2, 1, 10 ** 15, -10 ** 15]
@@ -398,24 +434,16 @@ def py_decode(entries, glyphs):
     return decoded, None
 
 
-def line_end_space(entries, glyphs, text):
-    """Known finding `line-end-space-glyph`: the text box at the end of a line lost its trailing spaces
-    (`remove_last_whitespace`) but its Pango layout, which is what is drawn, kept them."""
-    decoded, _ = py_decode(entries, glyphs)
-    units = scene.utf16_units(text)
-    return (decoded is not None and len(decoded) > len(units) and decoded[:len(units)] == units and
-            set(decoded[len(units):]) == {0x20})
-
-
-def tounicode_violation(html, exempt=True):
+def tounicode_violation(html):
+    """Every shown glyph run maps back through the written ToUnicode CMap to exactly the text of the text box
+    at whose baseline origin it is shown (no exemption: the line-end space glyphs of the former finding
+    `line-end-space-glyph`, repaired by edeb32e, are a violation again)."""
     for entries, glyphs, text, note in tounicode_cases(html):
         if note:
             return note
         decoded, missing = py_decode(entries, glyphs)
         if decoded is None:
             return f'glyph {missing:04x} of the text {text!r} has no entry in the ToUnicode CMap'
-        if exempt and line_end_space(entries, glyphs, text):
-            continue
         if decoded != scene.utf16_units(text):
             back = bytes(b for u in decoded for b in u.to_bytes(2, 'big')).decode('utf-16-be', 'replace')
             return f'the glyphs shown for the text box {text!r} map back through ToUnicode to {back!r}'
@@ -445,10 +473,17 @@ def random_transform(rng):
     return fns, origin
 
 
-def real_matrix(lengths, fns, origin):
+def real_matrix(lengths, fns, origin, kind='BlockBox'):
     from weasyprint.anchors import gather_anchors
     from weasyprint.css.properties import Dimension
+    from weasyprint.formatting_structure import boxes
     box = geo_box(lengths, [(0, 0)] * 4)
+    if kind != 'BlockBox':
+        cls = getattr(boxes, kind)
+        other = cls.__new__(cls)
+        other.__dict__.update(box.__dict__)
+        other.column_groups = ()
+        box = other
     computed = []
     for name, args in fns:
         if name == 'translate':
@@ -462,6 +497,8 @@ def real_matrix(lengths, fns, origin):
     box.bookmark_label = None
     gather_anchors(box, {}, [], [], {})
     matrix = box.transformation_matrix
+    if matrix is None:
+        return 'none'
     return ' '.join(sx.atom(Fraction(v)) for v in (*matrix.values, matrix.determinant))
 
 
@@ -479,9 +516,10 @@ def matrix_wire(lengths, fns, origin):
     return [px + ml, py + mt, bw, bh], [oxv, oxu == '%', oyv, oyu == '%'], wire_fns
 
 
-def matrix_violation(lengths, fns, origin):
+def matrix_violation(lengths, fns, origin, kind='BlockBox'):
     """css-transforms-1: the used matrix is T(origin) · F1 · … · Fn · T(-origin) acting on column vectors, i.e. a
-    point is moved to the origin's frame, transformed by Fn first … F1 last, and moved back."""
+    point is moved to the origin's frame, transformed by Fn first … F1 last, and moved back; every box but a
+    non-replaced inline box is transformable, `transform: none` gives no matrix."""
     (bbx, bby, bw, bh), (oxv, oxp, oyv, oyp), wire_fns = matrix_wire(lengths, fns, origin)
     ox = bbx + (bw * oxv / 100 if oxp else oxv)
     oy = bby + (bh * oyv / 100 if oyp else oyv)
@@ -498,9 +536,14 @@ def matrix_violation(lengths, fns, origin):
                 x, y = a * x + c * y + e, b * x + d * y + f
         return x + ox, y + oy
 
-    got = docs.outcome(lambda: real_matrix(lengths, fns, origin))
+    got = docs.outcome(lambda: real_matrix(lengths, fns, origin, kind))
     if got.startswith('err:'):
         return f'transformation matrix of {fns} raised {got}'
+    if not fns or kind in oracle.NOT_TRANSFORMABLE:
+        return None if got == 'none' else f'a {kind} with transform {fns} got the transformation matrix {got}'
+    if got == 'none':
+        return (f'a {kind} with transform {fns} got no transformation matrix: the transform is not applied to '
+                'the box and its subtree (css-transforms-1: every box but a non-replaced inline is transformable)')
     a, b, c, d, e, f, det = (Fraction(v) for v in got.split())
     for x, y in ((Fraction(0), Fraction(0)), (Fraction(1), Fraction(0)), (Fraction(0), Fraction(1)), (ox, oy)):
         have = (x * a + y * c + e, x * b + y * d + f)
@@ -517,12 +560,16 @@ def check_html(html, exempt=True):
     document = scene.render(html)
     seen = set()
     for index, page in enumerate(document.pages):
-        attrs, kids, canvas = scene.export_page(page._page_box)
+        attrs, kids, canvas = scene.export_page(page._page_box, style_level=True)
+        info = scene.doc_info(page._page_box)
         what = oracle.contexts_violation(attrs, kids, real_contexts(page._page_box))
         if what:
             return f'page {index}: {what}', seen
+        what = oracle.laid_out_violation(attrs, kids, info, scene.laid_out(page._page_box))
+        if what:
+            return f'page {index}: {what}', seen
         events = docs.outcome(lambda: scene.paint_page(document, page))
-        what, findings = oracle.violation(attrs, kids, canvas, events, exempt)
+        what, findings = oracle.violation(attrs, kids, canvas, events, exempt, info)
         seen |= findings
         if what:
             return f'page {index}: {what}', seen
@@ -552,7 +599,8 @@ def finding_still_there(html, finding_id):
 class C17(PropCheck):
     id = 'C17'
     extractors = (stack_kinds.generate,)
-    modules = ('WpModel.Props.C17', 'WpModel.Props.C17Paint', 'WpModel.Props.C17Text', 'WpModel.Witness.C17')
+    modules = ('WpModel.Props.C17', 'WpModel.Props.C17Paint', 'WpModel.Props.C17Text', 'WpModel.Props.C17Doc',
+               'WpModel.Witness.C17')
     trusted_base = (
         'modelled, not verified: stacking.py (StackingContext.__init__/from_page/from_box, _dispatch, '
         '_dispatch_children) and the paint sequence of draw/__init__.py (draw_page, draw_stacking_context, '
@@ -563,7 +611,13 @@ class C17(PropCheck):
         'rounded_box_ratio (boxes.py) and resolve_radii_percentages (layout/percent.py) as Model/RoundedBox.lean, '
         'tied by exact direct calls with Fractions',
         'py/harness/c17_scene.py export_page: one abstract attribute per attribute read of the drawing code '
-        '(style[...] / box.background / box.transformation_matrix / border widths / cell.empty)',
+        '(style[...] / border widths / cell.empty); with style_level=True the background and the transform are '
+        'exported as the style says them (visibility, background-color, number of background images; border box, '
+        'transform-origin, transform functions) and element_tag == html / body for the root box and its children',
+        'modelled, not verified: layout_box_backgrounds (is there a Background, its colour), layout_backgrounds '
+        '(canvas background from the root element or its <body> child, chosen_box.background = None, canvas '
+        'painting area = page border box) and the guard of gather_anchors (class test: graph of the real function '
+        'on one box per class, Gen/StackKinds gaTransformable) as Model/LaidOut.lean',
         'modelled, not verified: layout_background_layer (ordinary boxes: painting area, clipped box), box_rectangle, '
         'draw/border.py rounded_box (path), the text matrix / font size of draw_text, gather_anchors + matrix.py '
         '(transformation matrix), the cmap recording of draw_first_line and the bfchar table of '
@@ -591,8 +645,16 @@ class C17(PropCheck):
         sec_paint = run.section(
             'scene-paint',
             'display list of Page.paint (fills and text shows with colour, clip depth, opacity groups, transforms) '
-            'vs PaintOrder.drawPage; non-trivial = at least 8 items and one nested context')
-        htmls = [BASE + body for body in CORPUS]
+            'vs LaidOut.drawDocument on the style-level export (the model derives box.background, the canvas '
+            'background and box.transformation_matrix from the styles, then PaintOrder.drawPage); non-trivial = at '
+            'least 8 items and one nested context')
+        sec_laid = run.section(
+            'scene-laid-out',
+            'page.canvas_background, box.background and box.transformation_matrix of every box after layout vs '
+            'LaidOut.boxBackground / layoutBackgrounds / boxMatrix on the style-level export; non-trivial = the '
+            'canvas background comes from <body>, or a box has a transform')
+        htmls = [BASE + body for body in CORPUS] + DOC_CORPUS + LAYOUT_CORPUS
+        layout_only = set(LAYOUT_CORPUS)
         branches_seen = set()
         n_docs = run.n(260, 5000)
         render_errors = {}
@@ -616,17 +678,34 @@ class C17(PropCheck):
                 continue
             for page_index, page in enumerate(document.pages[:5]):
                 page_box = page._page_box
-                attrs, kids, canvas = scene.export_page(page_box)
+                try:
+                    attrs, kids, canvas = scene.export_page(page_box, style_level=True)
+                except ValueError as exc:     # a transform function outside the exported subset
+                    render_errors[str(exc)] = render_errors.get(str(exc), 0) + 1
+                    continue
+                info = scene.doc_info(page_box)
                 meta = {'html': html, 'page': page_index, 'signature': f'doc{index}/{page_index}'}
+                impl_laid = scene.laid_out(page_box)
+                root_wire = kids[0]
+                while root_wire[0] == 'P':
+                    root_wire = root_wire[1]
+                from_body = bool(info[0] and canvas != 'none' and oracle.spec_bg(root_wire[1][14]) == 'none')
+                sec_laid.add(sx.line('laidout', attrs, info, kids), impl_laid, meta=meta,
+                             nontrivial=from_body or bool(used & {'transform', 'singular'}),
+                             tags=(['canvas-from-body'] if from_body else
+                                   ['canvas-from-root'] if canvas != 'none' else ['no-canvas']) +
+                             sorted(used & {'transform', 'singular', 'corpus', 'multipage'}))
+                if html in layout_only:
+                    continue
                 impl_ctx = real_contexts(page_box)
                 n_ctx = impl_ctx.count('(ctx')
                 sec_ctx.add(sx.line('frompage', attrs, kids), impl_ctx, meta=meta, nontrivial=n_ctx >= 4,
                             tags=[f'ctx{min(n_ctx // 4 * 4, 40)}'] + sorted(used))
                 impl_paint = docs.outcome(lambda: scene.paint_page(document, page))
                 n_items = impl_paint.count(':') // 4
-                branches = oracle.branch_tags(attrs, kids, canvas)
+                branches = oracle.branch_tags(attrs, kids, canvas, info)
                 branches_seen.update(branches)
-                sec_paint.add(sx.line('paint', attrs, canvas, kids), impl_paint, meta=meta,
+                sec_paint.add(sx.line('paintdoc', attrs, info, kids), impl_paint, meta=meta,
                               nontrivial=n_items >= 8 and n_ctx >= 3,
                               tags=[f'items{min(n_items // 20 * 20, 200)}'] + branches)
         run.extra['render_errors_skipped'] = render_errors
@@ -667,9 +746,9 @@ class C17(PropCheck):
                 continue
             for page_index, page in enumerate(document.pages[:2]):
                 page_box = page._page_box
-                attrs, kids, canvas = scene.export_page(page_box)
+                attrs, kids, canvas = scene.export_page(page_box, style_level=True)
                 table = scene.geometry_table(page_box)
-                geo_lines.append(sx.line('paintgeo', attrs, canvas, kids, table))
+                geo_lines.append(sx.line('paintgeodoc', attrs, scene.doc_info(page_box), kids, table))
                 geo_impl.append(docs.outcome(lambda: scene.paint_page_geo(document, page)))
                 geo_meta.append(({'html': html, 'page': page_index, 'geo': True,
                                   'signature': f'geo{index}/{page_index}'}, sorted(sc.used)))
@@ -694,9 +773,10 @@ class C17(PropCheck):
             'build_fonts_dictionary vs ToUnicode.decode, against the text of the text box whose baseline origin '
             'the text matrix has; non-trivial = a ligature or a non-ASCII character')
         batch_sizes = [99, 100, 101, 150, 201, 250]
-        for index in range(run.n(60, 1000)):
+        for index in range(run.n(60, 1000) + len(TEXT_CORPUS)):
             many = batch_sizes[index % len(batch_sizes)] if index % 10 == 0 else None
-            html = text_document(rng, many)
+            # corpus first: the inputs of repaired findings stay as regression cases
+            html = TEXT_CORPUS[index] if index < len(TEXT_CORPUS) else text_document(rng, many)
             try:
                 cases = tounicode_cases(html)
             except Exception as exc:
@@ -704,14 +784,12 @@ class C17(PropCheck):
                 continue
             for k, (entries, glyphs, text, note) in enumerate(cases):
                 impl = note or sx.dumps(scene.utf16_units(text))
-                quirk = not note and line_end_space(entries, glyphs, text)
-                if quirk:       # known finding: compare what a reader decodes with the model's decoding
-                    impl = sx.dumps(py_decode(entries, glyphs)[0])
+                stripped = bool(text) and index < len(TEXT_CORPUS) and len(glyphs) == len(text)
                 sec_uni.add(sx.line('tounicode', [[g, units] for g, units in entries], glyphs), impl,
                             meta={'html': html, 'tounicode': True, 'signature': f'uni{index}/{k}'},
                             nontrivial=bool(text) and (len(glyphs) != len(text) or not text.isascii()),
                             tags=['ligature' if text and len(glyphs) < len(text) else 'one-to-one'] +
-                            (['line-end-space'] if quirk else []) +
+                            (['regression-corpus'] if stripped else []) +
                             ([f'cmap>{len(entries) // 100 * 100}'] if len(entries) >= 100 else []))
 
         sec_round = run.section(
@@ -754,20 +832,25 @@ class C17(PropCheck):
 
         sec_matrix = run.section(
             'transform-matrix',
-            'gather_anchors on real boxes with Fraction geometry and computed transform lists (scale incl. 0 and '
-            'negative, translate px / %, matrix(), 1-4 functions, px / % origins): box.transformation_matrix and its '
-            'determinant vs Transform.transformationMatrix, exact; non-trivial = two or more functions or a % value')
+            'gather_anchors on real boxes of every box class with Fraction geometry and computed transform lists '
+            '(none, scale incl. 0 and negative, translate px / %, matrix(), 1-4 functions, px / % origins): '
+            'box.transformation_matrix (or None) and its determinant vs LaidOut.gatherMatrix, exact; non-trivial = '
+            'two or more functions or a % value')
         for case in range(run.n(1500, 30000)):
             lengths, _ = random_geo(rng, case % 5 == 0)
             fns, origin = random_transform(rng)
-            out = docs.outcome(lambda: real_matrix(lengths, fns, origin))
+            if case % 9 == 0:
+                fns = []
+            kind = rng.choice(kinds) if case % 2 else 'BlockBox'
+            out = docs.outcome(lambda: real_matrix(lengths, fns, origin, kind))
             rect, org, wire_fns = matrix_wire(lengths, fns, origin)
             singular = out.endswith(' 0')
-            sec_matrix.add(sx.line('tmatrix', rect, org, wire_fns), out,
-                           meta={'lengths': lengths, 'fns': fns, 'origin': origin, 'signature': f'matrix{case}'},
+            sec_matrix.add(sx.line('gmatrix', kind, rect, org, wire_fns), out,
+                           meta={'lengths': lengths, 'fns': fns, 'origin': origin, 'kind': kind,
+                                 'signature': f'matrix{case}'},
                            nontrivial=len(fns) >= 2 or any('%' in str(f) for f in fns),
-                           tags=[f'fns{len(fns)}', 'singular' if singular else 'regular'] +
-                           sorted({name for name, _ in fns}))
+                           tags=[f'fns{len(fns)}', 'no-matrix' if out == 'none' else
+                                 'singular' if singular else 'regular', kind] + sorted({name for name, _ in fns}))
 
         sec_sort = run.section(
             'sort-z', 'StackingContext.__init__ on child contexts with random z-indexes (ties, negatives, zero, 10^15) '
@@ -796,12 +879,13 @@ class C17(PropCheck):
             attrs, kids, _ = scene.export_page(page)
             return oracle.contexts_violation(attrs, kids, real_contexts(page))
         if d['section'] == 'transform-matrix':
-            return matrix_violation(frac_list(meta['lengths']), meta['fns'], meta['origin'])
+            return matrix_violation(frac_list(meta['lengths']), thaw_fns(meta['fns']), thaw_origin(meta['origin']),
+                                    meta.get('kind', 'BlockBox'))
         if d['section'] == 'tounicode':
             return tounicode_violation(meta['html'])
         if d['section'] == 'scene-geometry':
-            return check_geometry(meta['html'])
-        if d['section'] in ('scene-contexts', 'scene-paint'):
+            return check_geometry(meta['html']) or check_html(meta['html'])[0]
+        if d['section'] in ('scene-contexts', 'scene-paint', 'scene-laid-out'):
             what, _ = check_html(meta['html'])
             return what
         return None
@@ -810,7 +894,7 @@ class C17(PropCheck):
         """Fresh documents, small first, judged by the oracle on the implementation alone."""
         docs.quiet()
         found = []
-        candidates = [BASE + body for body in CORPUS]
+        candidates = [BASE + body for body in CORPUS] + DOC_CORPUS
         for f in failures:
             detail = f.get('detail')
             if f['kind'] == 'correspondence' and isinstance(detail, dict) and 'html' in (detail.get('meta') or {}):
@@ -826,6 +910,17 @@ class C17(PropCheck):
                 continue
             if what:
                 found.append({'what': what, 'input': {'html': html}, 'signature': html[-80:]})
+                if len(found) >= 3:
+                    return found
+        probe = [Fraction(v) for v in (5, 7, 1, 1, 2, 2, 2, 2, 1, 1, 1, 1, 40, 20)]
+        for kind in mock_kinds():
+            run.search_stats['evaluations'] += 1
+            fns = [('translate', ((Fraction(3), 'px'), (Fraction(10), '%')))]
+            origin = ((Fraction(50), '%'), (Fraction(50), '%'))
+            what = matrix_violation(probe, fns, origin, kind)
+            if what:
+                found.append({'what': what, 'input': {'lengths': probe, 'fns': fns, 'origin': origin, 'kind': kind},
+                              'signature': f'matrix-{kind}'})
                 if len(found) >= 3:
                     return found
         for case in range(60):
@@ -870,10 +965,8 @@ class C17(PropCheck):
         return found
 
     def finding_replays(self):
-        replays = {fid: (lambda fid=fid, html=html: finding_still_there(BASE + html, fid))
-                   for fid, html in FINDINGS.items() if html is not None}
-        replays['line-end-space-glyph'] = lambda: bool(tounicode_violation(LINE_END_HTML, exempt=False))
-        return replays
+        return {fid: (lambda fid=fid, html=html: finding_still_there(BASE + html, fid))
+                for fid, html in FINDINGS.items()}
 
     def replay(self, data):
         inp = data.get('input', {})
@@ -887,7 +980,8 @@ class C17(PropCheck):
         if 'zs' in meta:
             return sort_violation(meta['zs'], real_sort(meta['zs']))
         if 'fns' in meta:
-            return matrix_violation(frac_list(meta['lengths']), thaw_fns(meta['fns']), thaw_origin(meta['origin']))
+            return matrix_violation(frac_list(meta['lengths']), thaw_fns(meta['fns']), thaw_origin(meta['origin']),
+                                    meta.get('kind', 'BlockBox'))
         if 'call' in meta:
             return rounded_violation(frac_list(meta['lengths']), [tuple(frac_list(r)) for r in meta['radii']],
                                      meta['call'], frac_list(meta['args']))
@@ -912,21 +1006,27 @@ def tuple_spec(s):
 FINDINGS = {
     'context-root-loses-decoration':
         '<table style="border-collapse:separate"><tr style="position:relative;background:#000004">'
-        '<td style="background:#000008;color:#000009">a</td></tr></table>'
-        '<div style="display:grid;opacity:0.5;background:#00000c"><div>b</div></div>',
+        '<td style="background:#000008;color:#000009">a</td></tr></table>',
     'inline-root-background-late':
         '<span style="position:relative;z-index:0;background:#000004;color:#000005">t<span style="position:relative;'
         'z-index:-1;background:#000008;color:#000009">inner</span></span>',
     'outline-escapes-overflow-clip':
         '<div style="overflow:hidden;background:#000004"><p style="outline:2px solid #00000b;color:#000009">x</p></div>',
-    'line-end-space-glyph': None,
     'clip-escaped-by-positioned-descendant':
         '<div style="position:absolute;clip:rect(0px,5px,5px,0px);background:#000004"><div style="position:relative;'
         'background:#000008;color:#000009">x</div></div>',
 }
 
+# Input of the former finding `line-end-space-glyph` (repaired by edeb32e) and variants: text boxes at the end of a
+# line whose trailing spaces `remove_last_whitespace` strips.  Run first in the `tounicode` section.
 LINE_END_HTML = ('<style>body{font-size:10px}</style>'
                  '<p style="width:60px">aaa <b>bbb</b> ccc ddd <b>eee</b> fff</p>')
+TEXT_CORPUS = [
+    LINE_END_HTML,
+    '<style>body{font-size:10px;font-family:weasyprint}</style><p style="width:45px">ab cd ef gh <i>ij</i> kl</p>',
+    '<style>body{font-size:10px}</style><p style="width:70px;text-align:justify">office <b>waffle </b> fjord naïve</p>',
+    '<style>body{font-size:10px}</style><p style="width:50px;white-space:pre-wrap">aa  bb  <b>cc  </b>dd</p>',
+]
 
 PROP = C17()
 
@@ -948,10 +1048,14 @@ MANIFEST = {
             'painted by point 2 or 6 (false for grid containers and table rows: known finding with Lean witnesses); '
             'inner radius = max(0, outer - inset) per corner and axis, corner-overlap scaling makes adjacent radii '
             'fit; transform-origin is a fixed point, determinant multiplicative; glyphs map back to the text when the '
-            'glyph-to-text relation is functional.',
+            'glyph-to-text relation is functional; every box class but InlineBox gets its transform as a matrix '
+            '(regenerated table), singular iff the product of the function determinants vanishes; '
+            'layout_backgrounds moves exactly one Background to the canvas (root element, else its body child) and '
+            'leaves every other one in place, so the propagated background is not painted at its own box; '
+            'Page.paint = draw_page on that result.',
     'note': 'Trusted: Lean kernel, the class-test extractor, the export of a laid-out page (attributes, geometry), the '
             'content-stream interpreter, the PDF-reader side of the ToUnicode check. Not modelled: rotate/skew '
             'trigonometry, border side segments and dashed/double styles, outlines\' geometry, table-part painting '
-            'areas, collapsed borders, images and gradients, font embedding. Five known findings are listed in '
+            'areas, collapsed borders, images and gradients, font embedding. Four known findings are listed in '
             'known_findings.txt.',
 }
